@@ -357,11 +357,11 @@ func (c *Cluster) execStep(st Step) {
 		// Graceful Stop, pause, then Restart (or, B=1, Start) on the SAME object: the other
 		// restart style (the repository's tests re-create the node with NewRaft instead).
 		n := c.byID[st.Node]
-		if n != nil && n.Inc != nil && n.Inc.Raft != nil && (n.lifecycle == nil || n.lifecycle.Returned) {
+		if n != nil && n.Inc != nil && n.Inc.Raft != nil && n.Inc.booted && (n.lifecycle == nil || n.lifecycle.Returned) {
 			inc := n.Inc
 			pause, useStart := st.A, st.B == 1
 			c.Stats.StopStarts++
-			n.lifecycle = c.apiCall(inc, "plan:Stop+Restart", -1, func() {
+			n.lifecycle = c.apiCall(inc, "plan:Stop+Restart", pause, func() {
 				inc.Raft.Stop()
 				if simrt.Dead() {
 					return
